@@ -49,6 +49,18 @@ entry(
     "DESIGN.md section 2, C14",
 )
 
+entry(
+    "C20",
+    "Hypothesis property-based testing with bitwise before/after snapshots over a registry of public entry points and generated store/transform histories",
+    "Every registered public entry point (vario_estimate in 5 modes, vario_estimate_axis, standard_bins, Krige ctor/call/set_condition, "
+    "SRF, CondSRF, Field.__call__, fit_variogram, 6 normalizers x 7 methods, apply/remove mean-norm-trend, 11 array transforms, 3 generators, "
+    "geometry helpers) is called with aliasing-prone arrays (float64, C / Fortran / read-only, already of the internal shape) under generated "
+    "option sets; caller arrays, earlier returned arrays and stored fields that are not the named target must be bitwise unchanged. "
+    "Exploration over the registry and option space; entry points outside the registry are not covered.",
+    "Trusted: the registry lists the public array-taking entry points; numpy tobytes comparison.",
+    "DESIGN.md section 2, C20",
+)
+
 
 def main():
     props = [json.loads(l) for l in open(os.path.join(VERIF, "properties.jsonl"))]
